@@ -8,6 +8,90 @@ COMMON_TRUSTED = [
 ]
 
 PROPS = {}
+
+
+# ---- which differences between model and code are failing inputs of the PROPERTY -------------------------------
+# ./check treats a differing line as a concrete failing input unless (a) its op kind is in "tie_ops": the op
+# compares something internal that the property does not fix (limb values, an internal codec, a helper function),
+# or (b) "judge" says the two outputs differ only in such a detail (the alert number, the reason of a rejection),
+# or (c) "judge2" produces a line for the Lean SPEC asking whether what the code returned satisfies the
+# property's relation (a signature that verifies, a ciphertext that decrypts, records that deliver the data) and
+# the spec says yes. Panics, hangs and intrinsic-oracle failures are always concrete. Cases that are not concrete
+# are reported as a broken correspondence ("VIOLATION ... no-failing-input-found" when nothing concrete is found).
+
+def _cls(out):
+    """done / error / reject / ok ...: the outcome class, without alert number or reason"""
+    return out.split(" ", 1)[0].split(":", 1)[0]
+
+
+def judge_class_only(ops):
+    def j(line, impl, model):
+        if line.split(" ", 1)[0] in ops:
+            return _cls(impl) != _cls(model)
+        return None
+    return j
+
+
+def judge_c10(line, impl, model):
+    # which of several applicable reasons a rejected chain reports is not fixed by the property
+    if impl.startswith("err") and model.startswith("err"):
+        return False
+    return None
+
+
+def judge_parsers(line, impl, model):
+    # hsmsg / hsmsgm: the byte layout model of the handshake messages; a parser that accepts or dumps something
+    # else without panicking breaks the tie, it does not by itself contradict C15 / C18
+    if line.split(" ", 1)[0] in ("hsmsg", "hsmsgm"):
+        return False
+    return None
+
+
+def judge_c07(line, impl, model):
+    # recread / recreads: "<delivered> <status> <prefix-flag> [<seq afterwards>]". What is delivered, whether it is a
+    # prefix of what was sent, whether reading ended in an error or at the end of the stream, and the sequence
+    # number are the property; WHICH alert a rejected record produces is not.
+    if line.split(" ", 1)[0] in ("recread", "recreads"):
+        a, b = impl.split(" "), model.split(" ")
+        if len(a) != len(b) or len(a) < 3:
+            return True
+        return a[0] != b[0] or a[2:] != b[2:] or _cls(a[1]) != _cls(b[1])
+    return None
+
+
+def judge2_c01(line, impl):
+    t = line.split(" ")
+    if t[0] == "sm2sign" and len(t) == 5 and len(impl.split(" ")) in (2, 3):
+        r, s_ = impl.split(" ")[:2]
+        return ("sm2signok %s %s %s %s %s" % (t[1], t[2], t[3], r, s_), "true")
+    if t[0] == "sm2signder" and len(t) == 4 and " " not in impl and impl not in ("err", "bad-op"):
+        return ("sm2signderok %s %s %s" % (t[1], t[2], impl), "true")
+    return None
+
+
+def judge2_c03(line, impl):
+    # eckeygen: which of the random bytes become d is the model's tie to GenerateKey; the property asks for
+    # 1 <= d <= n-2 and P = [d]G
+    t, o = line.split(" "), impl.split(" ")
+    if t[0] == "eckeygen" and len(o) == 4:
+        return ("eckeyok %s %s %s" % (o[0], o[1], o[2]), "true")
+    return None
+
+
+def judge2_c02(line, impl):
+    t = line.split(" ")
+    if t[0] == "sm2enc" and len(t) == 7 and impl not in ("err", "bad-op") and " " not in impl:
+        return ("sm2dec %s %s %s" % (t[6], t[3], impl), "ok " + t[4])
+    return None
+
+
+def judge2_c07(line, impl):
+    t = line.split(" ")
+    if t[0] == "recwrite" and len(t) == 7 and impl not in ("err", "bad-op"):
+        wire = impl.replace(",", "")
+        sent = "".join(w for w in t[6].split(",") if w != "-") or "-"
+        return ("recread %s %s %s %s %s %s" % (t[1], t[2], t[3], t[4], wire, sent), "%s eof 1" % sent)
+    return None
 HOOK_COMMITS = ["f0964c3", "f0ee85c", "a38392f", "da161e5", "5e35e30", "48a35e4", "bcc879f", "e7e32d2", "7bc6616", "1d0b9a9", "1418b64", "cbd428e", "2855402"]
 NOT_BUILT_REASON = "no check registered yet: the Lean model/theorems and the correspondence harness for this property have not been built in this session (work in progress, see DESIGN.md §12); the technique applies"
 
@@ -132,6 +216,9 @@ PROPS["C12"] = {
 }
 
 PROPS["C07"] = {
+    "tie_ops": ["expad"],
+    "judge": judge_c07,
+    "judge2": judge2_c07,
     "modules": ["Gmsm.Props.C07", "Gmsm.Props.C07CBC", "Gmsm.Props.C07Pad", "Gmsm.Props.C07Stream"],
     "theorems": [
         "Props.C07Stream.write_fragments",
@@ -168,6 +255,7 @@ PROPS["C07"] = {
 }
 
 PROPS["C10"] = {
+    "judge": judge_c10,
     "modules": ["Gmsm.Props.C10", "Gmsm.Props.C10Complete", "Gmsm.Props.C10Host"],
     "theorems": [
         "Props.C10.mem_findVerifiedParents", "Props.C10.buildChains_sound", "Props.C10.verify_sound",
@@ -185,6 +273,8 @@ PROPS["C10"] = {
 }
 
 PROPS["C03"] = {
+    "judge2": judge2_c03,
+    "tie_ops": ["limbmul", "limbsqr", "limbrd", "limbadd", "limbsub", "limbto", "limbfrom", "limbrc", "limbnz", "limbscalar", "limbcc", "wnaf"],
     "modules": ["Gmsm.Props.C03", "Gmsm.Props.C03Alg", "Gmsm.Proofs.ECFormulas", "Gmsm.Props.C03Mult", "Gmsm.Props.C03Limbs"],
     "theorems": [
         "Props.C03.params_eq_std", "Props.C03.rinverse_ok", "Props.C03.p_prime", "Props.C03.n_prime", "Props.C03.a_eq_neg3",
@@ -209,6 +299,7 @@ PROPS["C03"] = {
 }
 
 PROPS["C01"] = {
+    "judge2": judge2_c01,
     "modules": ["Gmsm.Props.C01", "Gmsm.Props.C03", "Gmsm.Props.SM2Group", "Gmsm.Props.C14Codec"],
     "theorems": [
         "Props.C01.verify_range", "Props.C01.verify_altered_msg_iff", "Props.C01.verify_sign", "Props.C01.smul_mod_order",
@@ -225,6 +316,7 @@ PROPS["C01"] = {
 }
 
 PROPS["C02"] = {
+    "judge2": judge2_c02,
     "modules": ["Gmsm.Props.C02", "Gmsm.Props.SM2Group", "Gmsm.Props.C14Codec"],
     "theorems": [
         "Props.C02.decrypt_rejects_short", "Props.C02.decrypt_rejects_offcurve", "Props.C02.decrypt_accepts_hash",
@@ -287,6 +379,7 @@ PROPS["C09"] = {
 }
 
 PROPS["C17"] = {
+    "tie_ops": ["ber2der", "p7pad", "p7unpad", "bmp", "unbmp"],
     "modules": ["Gmsm.Props.C17", "Gmsm.Props.C17Idem"],
     "theorems": [
         "Props.C17.length_roundtrip", "Props.C17.encodeLength_long", "Props.C17.unpad_pad", "Props.C17.unpad_sound",
@@ -305,6 +398,7 @@ PROPS["C17"] = {
 }
 
 PROPS["C18"] = {
+    "judge": judge_parsers,
     "modules": ["Gmsm.Props.C18", "Gmsm.Props.C02", "Gmsm.Props.C17", "Gmsm.Props.C16", "Gmsm.Props.C16Codec", "Gmsm.Props.C14Codec", "Gmsm.Props.C17Idem", "Gmsm.Props.C15Codec"],
     "theorems": [
         "Props.C15Codec.no_stray_bytes",
@@ -347,6 +441,7 @@ PROPS["C18"] = {
 }
 
 PROPS["C16"] = {
+    "tie_ops": ["lru", "sstate", "sstatem"],
     "modules": ["Gmsm.Props.C16", "Gmsm.Props.C16Codec"],
     "theorems": [
         "Props.C16.gate_iff", "Props.C16.altered_ticket_never_resumes", "Props.C16.retired_key_never_resumes",
@@ -366,8 +461,12 @@ PROPS["C16"] = {
 }
 
 PROPS["C06"] = {
-    "modules": ["Gmsm.Props.C06", "Gmsm.Props.C06Keys", "Gmsm.Props.C07Stream"],
+    "modules": ["Gmsm.Props.C06", "Gmsm.Props.C06Keys", "Gmsm.Props.C07Stream", "Gmsm.Props.C15Complete"],
     "theorems": [
+        "Props.C15Complete.honest_pair_completes",
+        "Props.C15Complete.honest_pair_both_done",
+        "Props.C15Complete.honest_pair_completes_iff",
+        "Props.C15Complete.gm_ocsp_not_accepted",
         "Props.C07Stream.write_fragments",
         "Props.C07Stream.stream_preserved",
         "Props.C07Stream.stream_preserved_simple",
@@ -379,7 +478,7 @@ PROPS["C06"] = {
     "gen_items": ["gmtls."],
     "gen_obligations": ["Gen.TLS.cipherSuites / gmCipherSuites / topCipherSuites / gmDefaultSuites / version and limit constants regenerated from gmtls/cipher_suites.go, gm_support.go, common.go; tables_ok re-proved on every run"],
     "level": "proof",
-    "claim": "A Lean model of what the two ends agree on (mode dispatch incl. the auto-switch by ClientHello version for all 65536 values, mutualVersion, ClientHello suite lists, the server's preference/supported pick over the regenerated suite tables with the certificate-kind and TLS-1.2-only filters, the client-certificate policy table) with theorems: whatever completes uses a suite both ends list and the server can serve, the protocol version is GMSSL 1.1 exactly for a GMSSL client on a GMSSL-capable server (never across protocols), the client-certificate count follows the policy table (policy_table is an iff over all policies x certificate kinds), forbidden combinations fail, a GMSSL pair with a mutual servable suite and a permitted certificate situation completes. The model's verdict (ok version suite client-certs / fail) is compared with real connections on every run: server mode {GMSSL-only, auto-switch, TLS} x client {GMSSL, gmtls TLS 1.0/1.1/1.2, crypto/tls 1.0/1.1/1.2} and gmtls clients against a crypto/tls server x suite lists (default, single, ordered, ECDHE-first, mismatching) x PreferServerCipherSuites x ClientAuth 0..4 x client certificate {none, trusted, other CA} x certificates static / through GetCertificate+GetKECertificate x tickets on/off; intrinsic oracles: both ends complete or both fail (no panic, no hang), same version, suite, exported keying material, the client sees exactly the configured server certificates, and random payloads of 0..40000 bytes (200 KiB in the thorough tier) written concurrently in both directions in fragments of 0..70000 bytes arrive intact. Independent decoding: wire captures plus KeyLogWriter output of real GMSSL connections (both suites, with and without client authentication) are decoded by the Lean implementation of GM/T 0024 — SM3 PRF and key block (Spec.TLSPRF), record layer (Model.Record, C07) — which must reproduce both Finished verify_data values from the plaintext transcript and decrypt every application record to the bytes the applications wrote. Added (C06Keys): gm_premaster_agree / gm_keys_agree — with the SM2 spec proved to be a group action, the server's SM2 decryption of the ClientKeyExchange returns the client's pre-master secret for every key and nonce in range, hence both ends derive the same master secret and key block. Application data as a theorem (Props.C07Stream over Model.Record): for every list of writes of any sizes the receiver reads exactly their concatenation, in order (stream_preserved, stream_prefix, write_fragments), for SM4-CBC-SM3 and SM4-GCM. ECDHE over each NIST curve alone (P-256/384/521, X25519 not offered) is exercised so that shared secrets with leading zero bytes occur (every second P-521 handshake).",
+    "claim": "A Lean model of what the two ends agree on (mode dispatch incl. the auto-switch by ClientHello version for all 65536 values, mutualVersion, ClientHello suite lists, the server's preference/supported pick over the regenerated suite tables with the certificate-kind and TLS-1.2-only filters, the client-certificate policy table) with theorems: whatever completes uses a suite both ends list and the server can serve, the protocol version is GMSSL 1.1 exactly for a GMSSL client on a GMSSL-capable server (never across protocols), the client-certificate count follows the policy table (policy_table is an iff over all policies x certificate kinds), forbidden combinations fail, a GMSSL pair with a mutual servable suite and a permitted certificate situation completes. The model's verdict (ok version suite client-certs / fail) is compared with real connections on every run: server mode {GMSSL-only, auto-switch, TLS} x client {GMSSL, gmtls TLS 1.0/1.1/1.2, crypto/tls 1.0/1.1/1.2} and gmtls clients against a crypto/tls server x suite lists (default, single, ordered, ECDHE-first, mismatching) x PreferServerCipherSuites x ClientAuth 0..4 x client certificate {none, trusted, other CA} x certificates static / through GetCertificate+GetKECertificate x tickets on/off; intrinsic oracles: both ends complete or both fail (no panic, no hang), same version, suite, exported keying material, the client sees exactly the configured server certificates, and random payloads of 0..40000 bytes (200 KiB in the thorough tier) written concurrently in both directions in fragments of 0..70000 bytes arrive intact. Independent decoding: wire captures plus KeyLogWriter output of real GMSSL connections (both suites, with and without client authentication) are decoded by the Lean implementation of GM/T 0024 — SM3 PRF and key block (Spec.TLSPRF), record layer (Model.Record, C07) — which must reproduce both Finished verify_data values from the plaintext transcript and decrypt every application record to the bytes the applications wrote. Added (C06Keys): gm_premaster_agree / gm_keys_agree — with the SM2 spec proved to be a group action, the server's SM2 decryption of the ClientKeyExchange returns the client's pre-master secret for every key and nonce in range, hence both ends derive the same master secret and key block. Application data as a theorem (Props.C07Stream over Model.Record): for every list of writes of any sizes the receiver reads exactly their concatenation, in order (stream_preserved, stream_prefix, write_fragments), for SM4-CBC-SM3 and SM4-GCM. ECDHE over each NIST curve alone (P-256/384/521, X25519 not offered) is exercised so that shared secrets with leading zero bytes occur (every second P-521 handshake). At the level of the message automaton, every compatible pair of honest endpoints completes in both directions, for every configuration (Props.C15Complete.honest_pair_completes / honest_pair_both_done / honest_pair_completes_iff).",
     "note": "Partial: the theorems are about the negotiation model; key agreement (SM2 encryption of the pre-master secret, ECDHE/RSA for TLS), certificate verification (C08/C10) and the stdlib TLS 1.0-1.2 record protection are exercised, not modelled. For crypto/tls peers only single-suite lists are used because its preference order is its own. Independent decoding covers GMSSL; TLS 1.0-1.2 interoperability is decided by completing handshakes and exchanging data with the Go standard library.",
     "trusted_base": ["Model.Negotiate tied by the hs op; extract/tls.go table extraction", "Spec.TLSPRF transcribes GM/T 0024 6.5 / RFC 5246 5 (validated by decoding real connections: Finished values and records)", "crypto/tls (stdlib) as the reference TLS implementation"],
     "assumptions": [],
@@ -387,8 +486,30 @@ PROPS["C06"] = {
 }
 
 PROPS["C15"] = {
-    "modules": ["Gmsm.Props.C15", "Gmsm.Props.C15Codec"],
+    "judge": lambda l, a, b: (judge_parsers(l, a, b) if l.split(" ", 1)[0] in ("hsmsg", "hsmsgm") else judge_class_only(("hsseq", "hsout", "hsflight", "chmod", "shmod"))(l, a, b)),
+    "modules": ["Gmsm.Props.C15", "Gmsm.Props.C15Codec", "Gmsm.Props.C15Complete"],
     "theorems": [
+        "Props.C15Complete.expected_accepted",
+        "Props.C15Complete.accepts_iff_expected",
+        "Props.C15Complete.accepts_iff",
+        "Props.C15Complete.accepts_iff_woven",
+        "Props.C15Complete.expected_accepted_with_tolerated",
+        "Props.C15Complete.expected_run_done_with_tolerated",
+        "Props.C15Complete.weave_is_interleaving",
+        "Props.C15Complete.gapOk_of_count",
+        "Props.C15Complete.gapOk_ccs_iff",
+        "Props.C15Complete.at_ccs_only_warning_or_ccs",
+        "Props.C15Complete.sends_mem_expected",
+        "Props.C15Complete.honest_pair_completes",
+        "Props.C15Complete.honest_pair_both_done",
+        "Props.C15Complete.honest_pair_completes_iff",
+        "Props.C15Complete.honest_pair_completes_with_tolerated",
+        "Props.C15Complete.gm_ocsp_not_accepted",
+        "Props.C15Complete.no_other_completion",
+        "Props.C15Complete.server_expected_is_honest",
+        "Props.C15Complete.server_completes_only_on_honest",
+        "Props.C15Complete.client_expected_iff",
+        "Props.C15Complete.gmClient_expected",
         "Props.C15Codec.unmarshalServerKeyExchange_iff",
         "Props.C15Codec.unmarshalServerKeyExchange_marshalServerKeyExchange",
         "Props.C15Codec.marshalServerKeyExchange_unmarshalServerKeyExchange",
@@ -441,11 +562,11 @@ PROPS["C15"] = {
     ],
     "gen_items": [],
     "level": "proof",
-    "claim": "Model.Handshake is the message-acceptance automaton of the gmtls endpoints as the code is: the record-layer rules of readRecord/readHandshake (record type against phase, ChangeCipherSpec only when asked for and not while part of a message is buffered, oversized records and messages, at most 5 consecutive warning alerts, close_notify/fatal alert/EOF, the GMSSL client's missing haveVers) and the per-state type assertions of the GMSSL and TLS server and client (full, client-certificate, ticket and resumption variants, NPN, the TLS client's optional CertificateStatus/ServerKeyExchange/CertificateRequest), over an alphabet of 33 events. Proved for every configuration and EVERY finite event sequence: if the handshake completes with the last event, the sequence with tolerated events erased is one of the flights expected c, which are written out per role (done_only_expected, run_done_iff, expected_*); once the stream has ended no state keeps waiting (no_wait_after_eof, eof_is_error); in every state every event other than the at most two (TLS client: four) listed types and the tolerated ones is an error, with its alert (unexpected_is_error, unexpected_cases, unexpected_cases_ccs, expected_is_taken); every step errors, completes, moves to a later phase or is a tolerated event, the sixth consecutive warning alert is fatal, and a still-running endpoint has read at most 6*8+5 events other than empty records and record-boundary artefacts (progress, six_warnings_fatal, bounded_stall, stall_bound). Version dispatch for all client_version values at once by omega: below 0x0101 and in (0x0101,0x0300) every mode rejects; the auto-switch server enters GMSSL code iff v=0x0101, TLS code iff 0x0300<=v<=0x0303 at that version, and rejects everything else including all v>0x0303; TLS-only and GMSSL-only servers cap at 0x0303; no version without a PRF is ever negotiated (dispatch_*, dispatch_version_has_prf, auto_gm_iff); a hello with unsupported version, compression or suites is refused before any ServerHello and a ServerHello names an offered, servable suite (hello_refused, hello_suite_offered). Correspondence on every run: a man in the middle between the real endpoint under test and a genuine gmtls peer applies edit scripts to the stream towards the endpoint (drop, dup, swap, retype, insert any handshake type or record-level event incl. CCS, application data, alerts, empty/oversized/unknown/wrong-version records, truncation, length-field perturbation, split/join/trailing bytes, EOF before every item, EOF of the endpoint's own stream after every record), for GMSSL/TLS/auto-switch servers and GMSSL/TLS clients in full, client-cert, ticket and resumed handshakes, plus ClientHello version sweeps 0x0000..0x0400, suite lists of known and unknown ids and compression rewrites in all three server modes; Handshake's result, panics (both ends), waiting after end of stream (decided by exact deadlock detection, not time) and the alert written are compared line by line with the model (quick 1510 ops, thorough about 31 800: all single edits at every position, all pairs of order-level edits for the GMSSL roles, seeded multi-edit scripts). Added: the client's check of a ServerHello (version, suite in offered and known, null compression) is characterised outright (client_accepts_hello_iff, client_never_accepts_unoffered) and compared with the real client by the shmod op (man-in-the-middle rewrites of the genuine ServerHello). Byte level (Model.TLSMessages, Props.C15Codec, 157 theorems): unmarshal/marshal of all 16 handshake message kinds modelled step for step (both hellos with every recognised extension, both certificate-request layouts, the uint32 wrap in the certificate loop); per message an exact acceptance characterisation (unmarshalX_iff), the round trip unmarshal(marshal m) = m for well-formed m and canonicity where the parser is strict; where it is not strict the theorem says so (unmarshalFinished_any_tail, unmarshalCertificate_header_ignored, unmarshalCertificateStatus_other_trailing). Tied by ops hsmsg (every parsed field and marshal of the re-built struct compared) and hsmsgm (marshal on arbitrary, also out-of-range, fields): every truncation of short samples with and without fixed header length, boundary cuts, consistent resize mutations.",
+    "claim": "Model.Handshake is the message-acceptance automaton of the gmtls endpoints as the code is: the record-layer rules of readRecord/readHandshake (record type against phase, ChangeCipherSpec only when asked for and not while part of a message is buffered, oversized records and messages, at most 5 consecutive warning alerts, close_notify/fatal alert/EOF, the GMSSL client's missing haveVers) and the per-state type assertions of the GMSSL and TLS server and client (full, client-certificate, ticket and resumption variants, NPN, the TLS client's optional CertificateStatus/ServerKeyExchange/CertificateRequest), over an alphabet of 33 events. Proved for every configuration and EVERY finite event sequence: if the handshake completes with the last event, the sequence with tolerated events erased is one of the flights expected c, which are written out per role (done_only_expected, run_done_iff, expected_*); once the stream has ended no state keeps waiting (no_wait_after_eof, eof_is_error); in every state every event other than the at most two (TLS client: four) listed types and the tolerated ones is an error, with its alert (unexpected_is_error, unexpected_cases, unexpected_cases_ccs, expected_is_taken); every step errors, completes, moves to a later phase or is a tolerated event, the sixth consecutive warning alert is fatal, and a still-running endpoint has read at most 6*8+5 events other than empty records and record-boundary artefacts (progress, six_warnings_fatal, bounded_stall, stall_bound). Version dispatch for all client_version values at once by omega: below 0x0101 and in (0x0101,0x0300) every mode rejects; the auto-switch server enters GMSSL code iff v=0x0101, TLS code iff 0x0300<=v<=0x0303 at that version, and rejects everything else including all v>0x0303; TLS-only and GMSSL-only servers cap at 0x0303; no version without a PRF is ever negotiated (dispatch_*, dispatch_version_has_prf, auto_gm_iff); a hello with unsupported version, compression or suites is refused before any ServerHello and a ServerHello names an offered, servable suite (hello_refused, hello_suite_offered). Correspondence on every run: a man in the middle between the real endpoint under test and a genuine gmtls peer applies edit scripts to the stream towards the endpoint (drop, dup, swap, retype, insert any handshake type or record-level event incl. CCS, application data, alerts, empty/oversized/unknown/wrong-version records, truncation, length-field perturbation, split/join/trailing bytes, EOF before every item, EOF of the endpoint's own stream after every record), for GMSSL/TLS/auto-switch servers and GMSSL/TLS clients in full, client-cert, ticket and resumed handshakes, plus ClientHello version sweeps 0x0000..0x0400, suite lists of known and unknown ids and compression rewrites in all three server modes; Handshake's result, panics (both ends), waiting after end of stream (decided by exact deadlock detection, not time) and the alert written are compared line by line with the model (quick 1510 ops, thorough about 31 800: all single edits at every position, all pairs of order-level edits for the GMSSL roles, seeded multi-edit scripts). Added: the client's check of a ServerHello (version, suite in offered and known, null compression) is characterised outright (client_accepts_hello_iff, client_never_accepts_unoffered) and compared with the real client by the shmod op (man-in-the-middle rewrites of the genuine ServerHello). Byte level (Model.TLSMessages, Props.C15Codec, 157 theorems): unmarshal/marshal of all 16 handshake message kinds modelled step for step (both hellos with every recognised extension, both certificate-request layouts, the uint32 wrap in the certificate loop); per message an exact acceptance characterisation (unmarshalX_iff), the round trip unmarshal(marshal m) = m for well-formed m and canonicity where the parser is strict; where it is not strict the theorem says so (unmarshalFinished_any_tail, unmarshalCertificate_header_ignored, unmarshalCertificateStatus_other_trailing). Tied by ops hsmsg (every parsed field and marshal of the re-built struct compared) and hsmsgm (marshal on arbitrary, also out-of-range, fields): every truncation of short samples with and without fixed header length, boundary cuts, consistent resize mutations. Completeness (Props.C15Complete, for every configuration): the accepted language is characterised exactly - accepts_iff: a sequence is accepted iff it is one of the flights expected c with, before each message, a gap of tolerated events that respects the limits of the code (at most 5 consecutive warning alerts, reset only by an accepted message or a non-empty handshake record; while ChangeCipherSpec is awaited nothing but warning alerts); expected_accepted / accepts_iff_expected for sequences without tolerated events; what an honest endpoint writes (Model.HandshakeSends.sends, the stream the hsflight op compares with what the real peer wrote) is accepted by the other end in both directions for every compatible pair (honest_pair_completes, honest_pair_both_done, honest_pair_completes_iff), a server accepts exactly that one flight (server_completes_only_on_honest), a client exactly the honest flights of the servers it may face (client_expected_iff, gmClient_expected). The one incompatible combination is proved too: a GMSSL client that asked for OCSP stapling aborts on the CertificateStatus a GMSSL server would send (gm_ocsp_not_accepted); gmtls' own GMSSL client never sends status_request.",
     "note": "Partial: message contents are not modelled; a message of the expected type is taken to carry what the genuine peer wrote. The two content outcomes the state machine depends on are explicit events: malformed (body fails to unmarshal) and finishedBad (verify_data mismatch). The driver carries the abstract rule 'an edit that changes the bytes E hashes makes the transcripts differ, so the peer rejects E's answer / E's Finished check fails'; for trunc/len edits only done/error is compared (whether the parser notices is C18's subject), for all other edits the alert code is compared too (printed 'enc' once the endpoint writes under its new keys). A protected record cannot be forged by the man in the middle, so events after ChangeCipherSpec are limited to the genuine Finished and records that fail decryption. NPN and OCSP-status branches of the automaton are proved but not exercised (two gmtls peers never negotiate them). Certificate policy outcomes (empty certificate under Require*) are content-level and not in the automaton. The code does not bound empty handshake records (empty_records_unbounded) and a TLS-only/GMSSL-only server lets 0x0101 resp. >=0x0300 through mutualVersion; both are modelled as they are and listed in harness/c15_findings.txt.",
     "trusted_base": ["Model.Handshake tied by the hsseq/hsflight/hsout/chmod ops (exact line equality incl. alert code) in harness/c15.go; the script->event translation Driver/Handshake.lean (streamOf, cipherPass, taints)", "harness deadlock detector (qWorld: all readers blocked on empty pipes) and the intrinsic oracles panic / hang / completed-on-misbehaviour", "harness/tls.go PKI and config builders; the genuine gmtls peer", "Go runtime recover()"],
     "assumptions": ["messages of the expected type carry what an honest peer sends (contents outside the model)", "transcripts that differ never produce a matching Finished (collision resistance of SM3/SHA-256 and the PRF) — used only in the driver's translation, stated there", "default Config version limits (MinVersion/MaxVersion unset)"],
-    "not_proved": ["refinement of the Go code by the automaton as a theorem (tied by correspondence runs, not by proof)", "the converse of done_only_expected with all tolerance side conditions (acceptance of every expected flight with <=5 warnings between messages) beyond the worked examples", "byte-level reassembly across records (fragment/trailing are abstract events; the 64 KiB limit appears as the event oversizedMsg)", "parser totality on truncated/perturbed bodies (C18)"],
+    "not_proved": ["refinement of the Go code by the automaton as a theorem (tied by correspondence runs, not by proof)", "byte-level reassembly across records (fragment/trailing are abstract events; the 64 KiB limit appears as the event oversizedMsg)", "parser totality on truncated/perturbed bodies (C18)"],
 }
 
 PROPS["C08"] = {
